@@ -253,6 +253,14 @@ static void misuseBody()
         afterMisuse = 1;   // must not be reached
         return;
     }
+    if (misuseKind == 6 || misuseKind == 7) {
+        // the library's own default allocators and a request the C library refuses (TestMemoryAllocator::alloc_memory -> checkedMalloc)
+        const size_t huge = (size_t) 1 << 62;
+        if (misuseKind == 6) leakedForLater = (char*) ::operator new[](huge);
+        else leakedForLater = (char*) cpputest_malloc_location_with_leak_detection(huge, "m.c", 6);
+        afterMisuse = 1;   // must not be reached
+        return;
+    }
     if (misuseKind == 3) {
         // the global detector is replaced while the thread-safe overloads are on (setGlobalDetector is public API): the lock taken
         // by the wrappers and the lock released on the failure path must both be the current detector's
@@ -304,7 +312,8 @@ static int runMisuse(int kind, const char* logPath)
     if (kind == 3) MemoryLeakWarningPlugin::setGlobalDetector(det, MemoryLeakWarningPlugin::getGlobalFailureReporter());
     std::string text = output.getOutput().asCharString();
     std::string cat = text.find("Memory corruption") != std::string::npos ? "corruption" : text.find("Deallocating non-allocated memory") != std::string::npos ? "nonallocated"
-                      : text.find("scripted: the allocator cannot satisfy the request") != std::string::npos ? "refused" : "none";
+                      : text.find("scripted: the allocator cannot satisfy the request") != std::string::npos ? "refused"
+                      : text.find("malloc returned null pointer") != std::string::npos ? "nullmalloc" : "none";
     fprintf(out, "{\"op\":\"misuse\",\"kind\":%d,\"body\":%d,\"after\":%d,\"second\":%d,\"other\":%d,\"failures\":%lu,\"run\":%lu,\"cat\":\"%s\"}\n",
             kind, bodyReached, afterMisuse, secondRan, otherThreadOk, (unsigned long) result.getFailureCount(), (unsigned long) result.getRunCount(), cat.c_str());
     fflush(out); fclose(out);
